@@ -158,10 +158,8 @@ def c_verifier_to_bytes(it, recv, a):
     idx = Sym(s + ".public_input_indexes")
     items = [be64(ln(Sym(s + ".label"))), be64(ln(vk)), be64(ln(ok)), be64(ln(idx)), be64(Sym(s + ".size")), be64(Sym(s + ".constraints")),
              sec(Sym(s + ".label")), sec(vk), sec(ok),
-             VOpaque("for_each_extended", [Sym(VOpaque("map_each", [Sym(VOpaque("map_each", [idx, Sym(idx.path + "[*]")]).canon()),
-                                                                     VOpaque("u64::to_be_bytes", [Sym(VOpaque("map_each", [idx, Sym(idx.path + "[*]")]).canon() + "[*]")])]).canon()),
-                                           Sym(VOpaque("map_each", [Sym(VOpaque("map_each", [idx, Sym(idx.path + "[*]")]).canon()),
-                                                                    VOpaque("u64::to_be_bytes", [Sym(VOpaque("map_each", [idx, Sym(idx.path + "[*]")]).canon() + "[*]")])]).canon() + "[*]")])]
+             # for every index, in order: its big-endian u64 bytes (normal form of `iter().map(..).for_each(extend)` and of the loop)
+             VOpaque("for_each_extended", [idx, VOpaque("to_be_bytes", [Sym(idx.path + "[*]")])])]
     return VArr(items, "bytes")
 
 
@@ -245,9 +243,8 @@ def c_verifier_try_from_bytes(it, recv, a):
     X.append(("try", "VerifierKey::from_slice fails => Err"))
     X.append(("try", "OpeningKey::from_slice fails => Err"))
     chunks = Sym(VOpaque("chunks_exact", [idx, 8]).canon())
-    m1 = Sym(VOpaque("map_each", [chunks, Sym(chunks.path + "[*]")]).canon())
-    m2 = Sym(VOpaque("map_each", [m1, VOpaque("u64::from_be_bytes", [Sym(m1.path + "[*]")])]).canon())
-    m3 = Sym(VOpaque("map_each", [m2, Sym(m2.path + "[*]")]).canon())
+    # every 8-byte chunk read as a big-endian u64, in order (normal form: one map over the chunks)
+    m3 = Sym(VOpaque("map_each", [chunks, VOpaque("u64::from_be_bytes", [Sym(chunks.path + "[*]")])]).canon())
     return VOpaque("Self::new", [VOpaque("to_vec", [label]), VOpaque("VerifierKey::from_slice", [vk]), VOpaque("OpeningKey::from_slice", [ok]),
                                  VOpaque("collected", [m3]), L[4], L[5]])
 
